@@ -74,7 +74,9 @@ def full_docs():
           "licenses": [{"type": "MIT", "uri": "https://l"}, {}], "clear-env": True, "sbom-formats": [SBOMS[0], SBOMS[2]]}
     return {
         "buildpack-component": {"api": "0.10", "buildpack": copy.deepcopy(bp), "stacks": [{"id": "*", "mixins": ["build:git", "run:curl"]}, {"id": "io.s", "mixins": ["build:jq", "w"]}, {"id": "*"}],
-                                "targets": [{"os": "linux", "arch": "arm", "variant": "v8", "distros": [{"name": "ubuntu", "version": "24.04"}, {"name": "d", "version": "1"}]}, {}],
+                                "targets": [{"os": "linux", "arch": "arm", "variant": "v8", "distros": [{"name": "ubuntu", "version": "24.04"}, {"name": "d", "version": "1"}]},
+                                            # spellings other tools normalise (case, x86_64 for amd64): here they are opaque strings
+                                            {"os": "Linux", "arch": "x86_64", "variant": "V8", "distros": [{"name": "Ubuntu", "version": "24.04.1 LTS"}]}, {"os": "macos", "arch": "aarch64"}, {}],
                                 "metadata": META},
         "buildpack-composite": {"api": "0.10", "buildpack": copy.deepcopy(bp), "order": [{"group": [{"id": "a/b", "version": "0.0.1", "optional": True}, {"id": "c", "version": "1.0.0"}]}, {"group": [{"id": "d", "version": "2.0.0"}]}], "metadata": META},
         # the same name may be required several times (by several buildpacks, with different metadata)
